@@ -649,6 +649,104 @@ theorem concatViews_safe (tb : List Nat) (view add : View) : Safe (concatViews t
   · exact addAllBlockingTrains_safe _ _ _
   · exact addAllBlockingTrains_safe _ _ _
 
+
+/-! ### the old buffer content is never disturbed -/
+
+/-- the loop writes only the sentinel slot `base.2` and beyond: the first `base.2` entries are untouched -/
+theorem addLoop_prefix (base : View) :
+    ∀ (ias cur out : List Nat), base.2 < cur.length → addLoop base ias cur = .ok out →
+      out.take base.2 = cur.take base.2 ∧ cur.length ≤ out.length := by
+  intro ias
+  induction ias with
+  | nil => intro cur out _ h; cases h; exact ⟨rfl, le_refl _⟩
+  | cons ia rest ih =>
+    intro cur out hc h
+    unfold addLoop at h
+    cases hget : chkGet cur ia with
+    | fault e => rw [hget, bind_fault] at h; cases h
+    | ok ta =>
+      rw [hget, bind_ok, rawSet_of_lt cur base.2 ta hc, bind_ok] at h
+      have hl : (cur.set base.2 ta).length = cur.length := List.length_set
+      cases hscan : scanEq (cur.set base.2 ta) ta ((cur.set base.2 ta).length + 1) base.1 with
+      | fault e => rw [hscan, bind_fault] at h; cases h
+      | ok j =>
+        rw [hscan, bind_ok] at h
+        have htake : (cur.set base.2 ta).take base.2 = cur.take base.2 :=
+          List.take_set_of_le (le_refl _)
+        by_cases hjb : j = base.2
+        · rw [if_pos hjb] at h
+          obtain ⟨h1, h2⟩ := ih (cur.set base.2 ta ++ [ta]) out (by simp; omega) h
+          refine ⟨?_, by simp at h2; omega⟩
+          rw [h1, List.take_append_of_le_length (by omega), htake]
+        · rw [if_neg hjb] at h
+          obtain ⟨h1, h2⟩ := ih (cur.set base.2 ta) out (by omega) h
+          exact ⟨by rw [h1, htake], by omega⟩
+
+/-- `add_blocking_trains`, ALL arguments: when it returns, the old buffer is a prefix of the new one (the
+    sentinel slot it wrote lies beyond it) and the returned view is `[base.begin, new length)` -/
+theorem addBlockingTrains_prefix (tb : List Nat) (base add : View) (out : List Nat) (v : View)
+    (h : addBlockingTrains tb base add = .ok (out, v)) :
+    out.take tb.length = tb ∧ tb.length ≤ out.length ∧ v = (base.1, out.length) := by
+  unfold addBlockingTrains at h
+  by_cases h1 : base.1 ≤ base.2
+  · rw [if_neg (by omega)] at h
+    by_cases h2 : tb.length = base.2
+    · rw [if_neg (by omega)] at h
+      by_cases h3 : add.2 < add.1
+      · rw [if_pos h3] at h; cases h
+      · rw [if_neg h3] at h
+        cases hloop : addLoop base (List.range' add.1 (add.2 - add.1)) (tb ++ [0]) with
+        | fault e => rw [hloop, bind_fault] at h; cases h
+        | ok tb1 =>
+          rw [hloop, bind_ok] at h
+          obtain ⟨hp, hlen⟩ := addLoop_prefix base _ (tb ++ [0]) tb1 (by simp; omega) hloop
+          have hlen' : tb.length + 1 ≤ tb1.length := by simpa using hlen
+          have hp' : tb1.take tb.length = tb := by
+            rw [← h2] at hp; rw [hp]; simp
+          cases hg : tb1.getLast? with
+          | none => rw [hg] at h; cases h
+          | some save =>
+            rw [hg] at h
+            simp only [Out.ok.injEq, Prod.mk.injEq] at h
+            obtain ⟨ho, hv⟩ := h
+            have hdl : tb1.dropLast.take tb.length = tb := by
+              rw [List.dropLast_eq_take, List.take_take, Nat.min_eq_left (by omega)]; exact hp'
+            have hdll : tb1.dropLast.length = tb1.length - 1 := List.length_dropLast
+            by_cases hlt : base.2 < tb1.dropLast.length
+            · rw [if_pos hlt] at ho hv
+              subst ho
+              refine ⟨?_, by rw [List.length_set]; omega, hv.symm⟩
+              rw [List.take_set_of_le (by omega)]; exact hdl
+            · rw [if_neg hlt] at ho hv
+              subst ho
+              exact ⟨hdl, by omega, hv.symm⟩
+    · rw [if_pos (by omega)] at h; cases h
+  · rw [if_pos h1] at h; cases h
+
+theorem addAllBlockingTrains_prefix (tb : List Nat) (large small : View) (out : List Nat) (v : View)
+    (h : addAllBlockingTrains tb large small = .ok (out, v)) :
+    out.take tb.length = tb ∧ tb.length ≤ out.length := by
+  unfold addAllBlockingTrains at h
+  split_ifs at h
+  obtain ⟨h1, h2, _⟩ := addBlockingTrains_prefix _ _ _ out v h
+  have hl : tb.length ≤ (tb ++ List.take (large.2 - large.1) (List.drop large.1 tb)).length := by simp
+  refine ⟨?_, by omega⟩
+  have := congrArg (List.take tb.length) h1
+  rw [List.take_take, Nat.min_eq_left hl, List.take_append_of_le_length (le_refl _), List.take_length] at this
+  exact this
+
+theorem concatViews_prefix (tb : List Nat) (view add : View) (out : List Nat) (v : View)
+    (h : concatViews tb view add = .ok (out, v)) :
+    out.take tb.length = tb ∧ tb.length ≤ out.length := by
+  unfold concatViews at h
+  split_ifs at h
+  · cases h; simp
+  · cases h; simp
+  · obtain ⟨h1, h2, _⟩ := addBlockingTrains_prefix _ _ _ out v h; exact ⟨h1, h2⟩
+  · obtain ⟨h1, h2, _⟩ := addBlockingTrains_prefix _ _ _ out v h; exact ⟨h1, h2⟩
+  · exact addAllBlockingTrains_prefix _ _ _ out v h
+  · exact addAllBlockingTrains_prefix _ _ _ out v h
+
 /-! ### `LinkOptType::new` -/
 
 /-- every link index stored in the value is at most `B`; `Check` is not an intermediate value -/
